@@ -201,6 +201,13 @@ pub fn run(ctx: &Ctx, rep: &mut Report) {
                     rep.count("advance-ledger");
                 }
             }
+            if rng.chance(1, 12) {
+                let ga = w.g.addr.clone();
+                if w.u.upgrade_and_migrate(&ga).is_ok() {
+                    rep.step("the gateway is upgraded to the same code and migrated".into());
+                    rep.count("upgrade-and-migrate");
+                }
+            }
             rep.step(format!("step {} {} (epoch {} -> {})", step, kind, m.epoch(), m.epoch() + 1));
             rep.count(kind);
             let o = w.g.do_rotate(&mut w.u, &cand, &plan, bypass, if bypass { Auth::Only(vec![w.operator.clone()]) } else { Auth::Nobody });
